@@ -183,7 +183,8 @@ struct Pending {
         p[1] = static_cast<uint32_t>(n);
         p[0] = 1;                       // valid, running
     }
-    void clear() { if (p) p[0] = 0; }
+    // the case finished: keep its words (state 2) - a heap corruption caused by it may only be noticed by the allocator later
+    void clear() { if (p) p[0] = 2; }
 };
 
 // ---------------------------------------------------------------- statistics
